@@ -20,9 +20,12 @@ RULE = ("case = family x boundary flag x d in 1..3 x domain [a,b] (ends from sma
         "visited with the same grid object; an area = per dimension a path of 0..5 dyadic "
         "bisections of [a_d,b_d] (whole interval / touching a / touching b / interior) + a level 0..4 (Leja, Gauss "
         "0..3), levels drawn independently per dimension. Sub-check 'nodal': Trapezoidal, Simpson, Clenshaw-Curtis, "
-        "Leja (boundary=True), Gauss-Legendre, both integrators; 'hier': Lagrange p 1..5 (boundary=True), B-spline p "
-        "1,3,5 (boundary True/False); 'trap_boundary': Trapezoidal boundary=False against boundary=True and against "
-        "the composite trapezoidal model. Non-trivial = d>=2 and some visited area is a proper sub-box with a "
+        "Leja (boundary=True), Gauss-Legendre (normalize False/True), both integrators, Trapezoidal also with boundary="
+        "False+modified_basis=True; 'hier': Lagrange p 1..6 (boundary=True), B-spline p 1,3,5 (boundary True / False / "
+        "False+modified_basis=True); 'trap_boundary': Trapezoidal boundary=False (a third with modified_basis=True) "
+        "against boundary=True and against the composite trapezoidal model. Constructor options the library refuses "
+        "(boundary=True with modified_basis, Lagrange modified_basis, even B-spline degree, unknown integrator) are "
+        "fixed cases that are only counted. Non-trivial = d>=2 and some visited area is a proper sub-box with a "
         "non-constant level vector (trap_boundary additionally: that area touches the global boundary, i.e. points "
         "are really dropped). Per area: integrate(1+linear) is called first while the grid still sits on the previous "
         "area (stale state), then setCurrentArea, points, weights, announced numbers, integrate of a vector valued "
@@ -42,6 +45,12 @@ ASSUMPTIONS = [
     "dropped global boundary faces (implied by 'remaining points and weights unchanged'); B-spline: no exactness "
     "(its higher-level basis functions do not vanish at the ends), only count/inside/complete basis/integrate linear "
     "in the nodal values; an area of a boundary=False grid from which no point was dropped gets all clauses",
+    "modified_basis=True (Trapezoidal, B-spline; needs boundary=False): points exclude the global border, weights "
+    "(B-spline: effective nodal weights) sum to the volume and constants and linear functions are exact on every "
+    "sub-box that has a point at all (a dimension that dropped a border point: degree 1 by extrapolation; other "
+    "dimensions: the family's degree); the point-by-point comparison with boundary=True is not applicable there",
+    "GaussLegendreGrid(normalize=True) documents weights that sum to 1 per dimension: every closed form is divided "
+    "by the box volume",
     "Simpson's degree 3 needs n>=3 points; with n=2 (level 0) degree 1 is demanded",
     "Lagrange: demanded degree is min(p, n-1, level+1) with n=2^level+1: a hierarchical Lagrange function of level l "
     "is built on its <= l+2 hierarchical ancestors, so the space of level l only contains degree l+1 (the repository's "
@@ -169,7 +178,7 @@ class Area(object):
         self.nonconstant = len(set(self.level)) > 1
 
 
-def build_test_functions(family, p, area, npts_dim, dropped, rng, max_functions):
+def build_test_functions(family, p, area, npts_dim, dropped, rng, max_functions, degree_override=None):
     """exponent vectors K (m x d) with the per-dimension vanishing flags, and their exact integrals"""
     d = len(npts_dim)
     per_dim = []
@@ -177,6 +186,8 @@ def build_test_functions(family, p, area, npts_dim, dropped, rng, max_functions)
         la = 1 if dropped[k][0] else 0
         lb = 1 if dropped[k][1] else 0
         deg = nominal_degree(family, p, int(npts_dim[k]), area.level[k]) - la - lb
+        if degree_override is not None and degree_override[k] is not None:
+            deg = degree_override[k]
         per_dim.append(list(range(0, deg + 1)))
     if any(len(x) == 0 for x in per_dim):
         return np.zeros((0, d), dtype=int), np.zeros(0)
@@ -249,9 +260,10 @@ def make_grid(case, boundary=None):
     b = np.array(case["b"], dtype=float)
     fam = case["family"]
     bd = case["boundary"] if boundary is None else boundary
-    integ = "old" if case.get("old_integrator") else None
+    integ = case.get("integrator", "old" if case.get("old_integrator") else None)
+    mod = bool(case.get("modified_basis", False)) and boundary is None     # (the boundary=True twin is never modified)
     if fam == "trapezoidal":
-        return G.TrapezoidalGrid(a, b, boundary=bd, integrator=integ)
+        return G.TrapezoidalGrid(a, b, boundary=bd, integrator=integ, modified_basis=mod)
     if fam == "simpson":
         return G.SimpsonGrid(a, b, boundary=bd, integrator=integ)
     if fam == "cc":
@@ -259,11 +271,11 @@ def make_grid(case, boundary=None):
     if fam == "leja":
         return G.LejaGrid(a, b, boundary=bd, integrator=integ)
     if fam == "gauss":
-        return G.GaussLegendreGrid(a, b)
+        return G.GaussLegendreGrid(a, b, normalize=bool(case.get("normalize", False)))
     if fam == "lagrange":
-        return G.LagrangeGrid(a, b, boundary=bd, p=case["p"])
+        return G.LagrangeGrid(a, b, boundary=bd, p=case["p"], modified_basis=mod)
     if fam == "bspline":
-        return G.BSplineGrid(a, b, boundary=bd, p=case["p"])
+        return G.BSplineGrid(a, b, boundary=bd, p=case["p"], modified_basis=mod)
     raise ValueError(fam)
 
 
@@ -276,10 +288,17 @@ def check_area(out, sub, case, grid, area, rng, info, tag, limits, obs=None):
     fam, p, d = case["family"], case.get("p", 0), case["d"]
     boundary = True if fam == "gauss" else case["boundary"]
     lv = list(area.level)
+    modified = bool(case.get("modified_basis", False))
+    # GaussLegendreGrid(normalize=True) documents weights that sum to 1: every closed form is divided by the volume
+    vol = 1.0 if case.get("normalize") else area.volume
+    norm = vol / area.volume
+    # modified basis (boundary=False): the weight of a dropped border point is redistributed by extrapolation, the
+    # grid keeps full mass and degree 1 as long as it has a point at all
+    has_points = not any(area.level[k] == 0 and area.touch_a[k] and area.touch_b[k] for k in range(d))
     # integrate() must set the area up itself (Integration.evaluate_area calls it without setCurrentArea): call it
     # while the grid still sits on the previous area (or on none).  Integrand 1 + sum_d c_d t_d, degree 1 <= nominal
     # degree of every family as soon as n >= 2, which holds at every level when no point is dropped.
-    if boundary or not area.touches:
+    if boundary or not area.touches or (modified and has_points):
         if not (fam == "bspline" and not boundary):      # (interior boxes of boundary-off B-splines: F-C08-b)
             from sparseSpACE.Function import Function
             c = rng.uniform(-1.0, 1.0, size=d)
@@ -292,10 +311,10 @@ def check_area(out, sub, case, grid, area, rng, info, tag, limits, obs=None):
                     return 1.0 + float(np.dot(c, (np.asarray(coordinates, dtype=float) - area.mid) / area.half))
 
             r0 = np.asarray(grid.integrate(Linear(), lv, area.start.copy(), area.end.copy()), dtype=float).reshape(-1)
-            if len(r0) != 1 or abs(r0[0] - area.volume) > exact_tol(fam, area) * area.volume * (1 + d):
+            if len(r0) != 1 or abs(r0[0] - vol) > exact_tol(fam, area) * vol * (1 + d):
                 out.bad("%s/integrate/%s-without-previous-setCurrentArea" % (sub, fam),
                         "%s: integrate(1 + linear) called right after the previous area = %s, volume %.17g; start=%s end=%s level=%s"
-                        % (tag, r0.tolist(), area.volume, area.start.tolist(), area.end.tolist(), lv))
+                        % (tag, r0.tolist(), vol, area.start.tolist(), area.end.tolist(), lv))
     grid.setCurrentArea(area.start.copy(), area.end.copy(), lv)
     points, weights = grid.get_points_and_weights()
     announced = [int(x) for x in grid.levelToNumPoints(lv)]
@@ -332,8 +351,24 @@ def check_area(out, sub, case, grid, area, rng, info, tag, limits, obs=None):
             return None
 
     any_dropped = any(x or y for x, y in dropped)
-    mode = "dropped" if any_dropped else "full"
+    mode = ("modified" if modified else "dropped") if any_dropped else "full"
     out.cls("mode=" + mode)
+    # boundary=False: no point on a global border face the sub-box touches (known exactly from the bisection path)
+    if any_dropped and npts:
+        for k in range(d):
+            tol_k = TOL_INSIDE * (abs(area.start[k]) + abs(area.end[k]))
+            if (dropped[k][0] and np.any(np.abs(pts[:, k] - area.start[k]) <= tol_k)) or \
+                    (dropped[k][1] and np.any(np.abs(pts[:, k] - area.end[k]) <= tol_k)):
+                out.bad("%s/points/%s-point-on-the-global-border-with-boundary-off" % (sub, fam),
+                        "%s: dim %d coordinates %s, start=%s end=%s level=%s" % (tag, k, sorted(set(pts[:, k].tolist()))[:6],
+                                                                               area.start.tolist(), area.end.tolist(), lv))
+                break
+    degree_override = None
+    if mode == "modified":
+        # constants and linear functions are exact on every sub-box (dimensions that dropped a point: degree 1, no
+        # vanishing factor; other dimensions: the family's degree), weights sum to the volume
+        degree_override = [(1 if announced[k] >= 1 else -1) if (dropped[k][0] or dropped[k][1]) else None for k in range(d)]
+        dropped = [(False, False)] * d
 
     # --- B-spline, boundary off: is the basis complete?  (cause of finding F-C08-b, see known_findings.d) ---------
     if fam == "bspline" and not boundary:
@@ -350,12 +385,12 @@ def check_area(out, sub, case, grid, area, rng, info, tag, limits, obs=None):
             return points, weights
 
     # --- clause 3: weights sum to the volume (nodal families, nothing dropped) ------------------------------------
-    if fam in NODAL and mode == "full":
-        err = abs(float(np.sum(weights)) - area.volume) / area.volume
+    if fam in NODAL and mode in ("full", "modified") and npts:
+        err = abs(float(np.sum(weights)) - vol) / vol
         info["max_wsum_err"] = max(info.get("max_wsum_err", 0.0), err)
         if err > TOL_WSUM[fam]:
             out.bad("%s/wsum/%s" % (sub, fam), "%s: sum of weights %.17g, volume %.17g (rel %.3g) start=%s end=%s level=%s"
-                    % (tag, float(np.sum(weights)), area.volume, err, area.start.tolist(), area.end.tolist(), lv))
+                    % (tag, float(np.sum(weights)), vol, err, area.start.tolist(), area.end.tolist(), lv))
 
     # --- clause 4: polynomial exactness + effective nodal weights through integrate() ----------------------------
     # B-spline basis functions of the higher levels do not vanish at the ends of the box, so a B-spline grid that
@@ -363,7 +398,8 @@ def check_area(out, sub, case, grid, area, rng, info, tag, limits, obs=None):
     # "integrate works and is linear in the nodal values" is asserted, with the constant as integrand.
     check_exact = not (fam == "bspline" and mode == "dropped")
     if check_exact:
-        K, exact = build_test_functions(fam, p, area, announced, dropped, rng, limits["max_functions"])
+        K, exact = build_test_functions(fam, p, area, announced, dropped, rng, limits["max_functions"], degree_override)
+        exact = exact * norm
     else:
         K, exact = np.zeros((1, d), dtype=int), np.array([np.nan])
         dropped = [(False, False)] * d
@@ -388,7 +424,7 @@ def check_area(out, sub, case, grid, area, rng, info, tag, limits, obs=None):
         out.bad("%s/integrate/%s-evaluated-off-grid" % (sub, fam), "%s: the integrand was evaluated at %d points that getPoints() does not list" % (tag, f.c08_state["foreign"]))
     m = len(K)
     if m and check_exact:
-        err = np.abs(res[:m] - exact) / area.volume
+        err = np.abs(res[:m] - exact) / vol
         info["max_exact_err_" + fam] = max(info.get("max_exact_err_" + fam, 0.0), float(err.max()))
         badj = np.nonzero(err > exact_tol(fam, area))[0]
         if len(badj):
@@ -401,23 +437,23 @@ def check_area(out, sub, case, grid, area, rng, info, tag, limits, obs=None):
     if nunits:
         W = res[m:]
         if fam in NODAL:
-            err = float(np.max(np.abs(W - weights))) / area.volume
+            err = float(np.max(np.abs(W - weights))) / vol
             info["max_unit_err"] = max(info.get("max_unit_err", 0.0), err)
             if err > TOL_UNIT:
                 out.bad("%s/integrate/%s-unit-function-differs-from-weight" % (sub, fam),
                         "%s: integrate(unit function j) != get_weights()[j], max diff %.3g of the volume" % (tag, err))
         else:
-            if mode == "full":
-                err = abs(float(np.sum(W)) - area.volume) / area.volume
+            if mode in ("full", "modified"):
+                err = abs(float(np.sum(W)) - vol) / vol
                 info["max_wsum_err"] = max(info.get("max_wsum_err", 0.0), err)
                 if err > exact_tol(fam, area):
                     out.bad("%s/wsum/%s" % (sub, fam), "%s: effective nodal weights sum to %.17g, volume %.17g; start=%s end=%s level=%s"
-                            % (tag, float(np.sum(W)), area.volume, area.start.tolist(), area.end.tolist(), lv))
+                            % (tag, float(np.sum(W)), vol, area.start.tolist(), area.end.tolist(), lv))
             if m:
                 # linearity: integrate(q) == sum_j W_j q(x_j) for every polynomial of the test set
                 vals = np.array([f.eval(pt)[:m] for pt in points])        # npts x m
                 lin = W @ vals
-                err = float(np.max(np.abs(lin - res[:m]))) / area.volume
+                err = float(np.max(np.abs(lin - res[:m]))) / vol
                 info["max_linearity_err"] = max(info.get("max_linearity_err", 0.0), err)
                 if err > exact_tol(fam, area):
                     out.bad("%s/integrate/%s-not-linear-in-nodal-values" % (sub, fam),
@@ -442,7 +478,7 @@ def check_area(out, sub, case, grid, area, rng, info, tag, limits, obs=None):
         if len(r1) != 1:
             out.bad("%s/integrate/%s-output-shape" % (sub, fam), "%s: scalar integrand returned shape %s" % (tag, r1.shape))
         else:
-            err = abs(r1[0] - want) / (area.volume * max(1.0, float(np.sum(np.abs(c)))))
+            err = abs(r1[0] - want) / (vol * max(1.0, float(np.sum(np.abs(c)))))
             if err > exact_tol(fam, area):
                 out.bad("%s/exactness/%s-%s-scalar-integrand" % (sub, fam, mode),
                         "%s: random combination of the test polynomials: integrate=%.17g exact=%.17g" % (tag, r1[0], want))
@@ -585,7 +621,7 @@ def run_sequence(case, sub, grid_factory, invalid, reference=None):
         observations.append(obs)
         got = check_area(out, sub, case, grid, area, rng, info, tag + (" (after a rejected request)" if rejected else ""),
                          limits, obs)
-        if fam == "trapezoidal" and got is not None:
+        if fam == "trapezoidal" and got is not None and not case.get("modified_basis"):
             boundary = case["boundary"]
             compare_with_trapezoid_model(out, sub, case, area, got[0], got[1], boundary, tag)
             if not boundary:
@@ -653,6 +689,13 @@ def run_sequence(case, sub, grid_factory, invalid, reference=None):
                 out.cls("sub-box-edge-within-1e-8-of-border-but-not-on-it")
         if max(len(pth) for pth in spec["path"]) >= 4:
             out.cls("bisection-depth>=4")
+        upper_only = [k for k in range(d) if area.touch_b[k] and not area.touch_a[k]]
+        if upper_only:
+            out.cls("sub-box-touches-upper-border-only")
+        if 1 in area.level:
+            out.cls("level==1")
+        if any(area.level[k] == 1 for k in upper_only):
+            out.cls("upper-border-only-with-level==1-in-that-dimension")
         if 0 in area.level:
             out.cls("level0")
         if max(area.level) >= 4:
@@ -665,6 +708,10 @@ def run_sequence(case, sub, grid_factory, invalid, reference=None):
         out.cls("p=%d" % case["p"])
     if case.get("old_integrator"):
         out.cls("old-integrator")
+    if case.get("modified_basis"):
+        out.cls("modified_basis=True")
+    if case.get("normalize"):
+        out.cls("normalize=True")
     out.cls("d=%d" % d, "areas=%d" % len(case["areas"]))
     for sc in sorted(set(case.get("scale", [1.0] * d))):
         out.cls("domain-scale=%.3g" % sc)
@@ -676,7 +723,25 @@ def run_sequence(case, sub, grid_factory, invalid, reference=None):
     return out, observations
 
 
+def run_unsupported(case, sub):
+    """option combinations the unchanged library refuses (assertion in the constructor or at the first request): they
+    are counted, not generated; nothing is asserted (if one starts to be accepted the counter shows it)"""
+    out = Outcome()
+    try:
+        grid = make_grid(case)
+        area = Area(case, case["areas"][0])
+        grid.setCurrentArea(area.start.copy(), area.end.copy(), list(area.level))
+        grid.get_points_and_weights()
+    except Exception as ex:  # contract: "raises on an unsupported combination"
+        out.cls("unsupported-option-combination-raises", "unsupported:%s:%s" % (case["expect_unsupported"], type(ex).__name__))
+    else:
+        out.cls("unsupported-option-combination-now-accepted:%s" % case["expect_unsupported"])
+    return out
+
+
 def run_generic(case, sub, grid_factory=make_grid):
+    if case.get("expect_unsupported"):
+        return run_unsupported(case, sub)
     invalid = case.get("invalid") or []
     if not invalid:
         return run_sequence(case, sub, grid_factory, [])[0]
@@ -748,18 +813,21 @@ def case_strategy(families, tier, boundary_choices, point_cap):
         b = [b[k] * scale[k] for k in range(d)]
         p = 0
         if fam == "lagrange":
-            p = draw(st.integers(1, 5))
+            p = draw(st.integers(1, 6))
         elif fam == "bspline":
             p = draw(st.sampled_from([1, 3, 5]))
-        boundary = True
+        boundary, modified = True, False
         if fam in boundary_choices:
             boundary = draw(st.sampled_from(boundary_choices[fam]))
+            if isinstance(boundary, str):           # "modified": boundary=False with modified_basis=True
+                boundary, modified = False, True
         maxl = 3 if fam in ("leja", "gauss") else 4
         nareas = draw(st.sampled_from([1, 1, 2, 3]))
         areas = []
         levels = st.sampled_from([0] + [l for l in range(1, maxl + 1) for _ in range(2)])
         # B-spline with boundary off: half of the cases stay on the whole domain (the only areas behind F-C08-b)
-        whole = fam == "bspline" and not boundary and draw(st.booleans())
+        whole = fam == "bspline" and not boundary and draw(st.sampled_from([True, True, True, False] if modified
+                                                                           else [True, False]))
         for _ in range(nareas):
             path = [[] if whole else draw(_path()) for _ in range(d)]
             lv = [draw(levels) for _ in range(d)]
@@ -772,6 +840,10 @@ def case_strategy(families, tier, boundary_choices, point_cap):
                     rng=draw(st.integers(0, 2 ** 31 - 1)))
         if fam in NODAL and fam != "gauss":
             case["old_integrator"] = draw(st.sampled_from([False, False, False, True]))
+        if modified:
+            case["modified_basis"] = True
+        if fam == "gauss" and draw(st.sampled_from([False, False, True])):
+            case["normalize"] = True
         # error paths: in a third of the cases one or two requests that the library rejects by raising are issued
         # on the same object before one of the valid areas
         if draw(st.sampled_from([False, False, True])):
@@ -784,16 +856,16 @@ def case_strategy(families, tier, boundary_choices, point_cap):
 
 
 def nodal_strategy(tier):
-    return case_strategy(list(NODAL), tier, {}, 2500 if tier == "quick" else 3000)
+    return case_strategy(list(NODAL), tier, {"trapezoidal": [True, True, "modified"]}, 2500 if tier == "quick" else 3000)
 
 
 def hier_strategy(tier):
-    return case_strategy(["lagrange", "bspline", "bspline"], tier, {"bspline": [True, True, False]},
+    return case_strategy(["lagrange", "bspline", "bspline"], tier, {"bspline": [True, True, False, "modified"]},
                          700 if tier == "quick" else 1500)
 
 
 def trap_boundary_strategy(tier):
-    return case_strategy(["trapezoidal"], tier, {"trapezoidal": [False]}, 2500 if tier == "quick" else 5000)
+    return case_strategy(["trapezoidal"], tier, {"trapezoidal": [False, False, "modified"]}, 2500 if tier == "quick" else 5000)
 
 
 def nodal_fixed():
@@ -802,6 +874,15 @@ def nodal_fixed():
     for fam in NODAL:
         res.append(dict(family=fam, p=0, boundary=True, d=2, a=[0.0, 0.0], b=[1.0, 1.0],
                         areas=[dict(path=[[], []], lv=[2, 2])], rng=1))
+    # modified basis, sub-box touching the upper border only, level 1 (and the mirrored one)
+    res.append(dict(family="trapezoidal", p=0, boundary=False, modified_basis=True, d=2, a=[1.0, 0.0], b=[3.0, 1.0],
+                    areas=[dict(path=[[1], [0]], lv=[1, 1]), dict(path=[[0, 1], []], lv=[2, 1])], rng=6))
+    base = dict(p=0, d=1, a=[0.0], b=[1.0], areas=[dict(path=[[]], lv=[2])], rng=0)
+    res.append(dict(base, family="trapezoidal", boundary=True, modified_basis=True,
+                    expect_unsupported="TrapezoidalGrid(boundary=True, modified_basis=True)"))
+    res.append(dict(base, family="trapezoidal", boundary=True, integrator="foo",
+                    expect_unsupported="TrapezoidalGrid(integrator='foo')"))
+    res.append(dict(base, family="leja", boundary=True, integrator="foo", expect_unsupported="LejaGrid(integrator='foo')"))
     return res
 
 
@@ -812,12 +893,24 @@ def hier_fixed():
                         areas=[dict(path=[[], [1, 0]], lv=[2, 3]), dict(path=[[0], [1]], lv=[1, 0])], rng=2))
     res.append(dict(family="bspline", p=3, boundary=False, d=2, a=[0.0, 0.0], b=[1.0, 1.0],
                     areas=[dict(path=[[], []], lv=[3, 2])], rng=3))
+    res.append(dict(family="bspline", p=3, boundary=False, modified_basis=True, d=2, a=[1.0, 0.0], b=[3.0, 1.0],
+                    areas=[dict(path=[[], []], lv=[3, 2]), dict(path=[[], []], lv=[1, 3])], rng=7))
+    base = dict(d=1, a=[0.0], b=[1.0], areas=[dict(path=[[]], lv=[2])], rng=0)
+    res.append(dict(base, family="bspline", p=2, boundary=True, expect_unsupported="BSplineGrid(p=2) (even degree)"))
+    res.append(dict(base, family="bspline", p=3, boundary=True, modified_basis=True,
+                    expect_unsupported="BSplineGrid(boundary=True, modified_basis=True)"))
+    res.append(dict(base, family="lagrange", p=3, boundary=True, modified_basis=True,
+                    expect_unsupported="LagrangeGrid(boundary=True, modified_basis=True)"))
+    res.append(dict(base, family="lagrange", p=3, boundary=False, modified_basis=True,
+                    expect_unsupported="LagrangeGrid(boundary=False, modified_basis=True)"))
     return res
 
 
 def trap_fixed():
     return [dict(family="trapezoidal", p=0, boundary=False, d=2, a=[0.0, -1.0], b=[1.0, 2.0],
-                 areas=[dict(path=[[0], [1, 1]], lv=[2, 1]), dict(path=[[1, 0], []], lv=[1, 3])], rng=4)]
+                 areas=[dict(path=[[0], [1, 1]], lv=[2, 1]), dict(path=[[1, 0], []], lv=[1, 3])], rng=4),
+            dict(family="trapezoidal", p=0, boundary=False, modified_basis=True, d=1, a=[1.0], b=[3.0],
+                 areas=[dict(path=[[1]], lv=[1]), dict(path=[[0]], lv=[1]), dict(path=[[]], lv=[2])], rng=8)]
 
 
 # ----------------------------------------------------------------------------------------------------------------
@@ -898,6 +991,23 @@ def selftest():
                 raise
         g.setCurrentArea = patched
         return g
+
+    # (6) modified basis: the extrapolated weight on the wrong one of two points keeps count, containment and the sum
+    # of the weights but must fail degree-1 exactness
+    def swapped(case, boundary=None):
+        g = make_grid(case, boundary)
+        orig = g.setCurrentArea
+
+        def patched(start, end, levelvec):
+            orig(start, end, levelvec)
+            g.weights = [np.array(w[::-1], dtype=float) if len(w) == 2 else w for w in g.weights]
+        g.setCurrentArea = patched
+        return g
+
+    c6 = trap_fixed()[1]
+    assert not run_generic(c6, "trap_boundary").violations
+    sigs = [s for s, _ in run_generic(c6, "trap_boundary", swapped).violations]
+    assert any("/exactness/trapezoidal-modified-deg1" in s for s in sigs) and not any("/wsum/" in s for s in sigs), sigs
 
     c5 = dict(trap_fixed()[0])
     c5["invalid"] = [dict(before=1, kind="none", dim=1, call="int")]
